@@ -205,3 +205,160 @@ def read (fresh : Rprop α) (a : Saved α) : Rprop α :=
 end Rprop
 
 end SharkVerif.Opt
+
+namespace SharkVerif.Opt
+variable {α : Type} [Scalar α]
+
+/-! ## Line searches (`LineSearch.cpp`) -/
+
+/-- what a line search returns: new point, its value, its gradient -/
+structure LSOut (α : Type) where
+  point : Vec α
+  value : α
+  gradient : Vec α
+
+/-- a line search as a function
+`(objective, point, value, direction, gradient, initial step) ↦ (point', value', gradient')` -/
+abbrev LineSearch (α : Type) := Objective α → Vec α → α → Vec α → Vec α → α → LSOut α
+
+/-- the loop of `backtracking`: at most `fuel` trial evaluations, step halved after each
+rejection; accept iff `f_new < value + c1 * t * gtd`. -/
+def backtrackGo (o : Objective α) (point dir : Vec α) (value gtd : α) : Nat → α → Option (α × α × Vec α)
+  | 0, _ => none
+  | k+1, t =>
+    let p := Vec.axpy point t dir
+    let fnew := o.f p
+    if fnew < value + Scalar.ofRat (1/10000) * t * gtd then some (t, fnew, o.grad p)
+    else backtrackGo o point dir value gtd k (t * Scalar.half)
+
+/-- `backtracking(point, searchDirection, value, func, gradient, t)`; `maxIter = 100`;
+on failure point, value and gradient are left untouched -/
+def backtracking : LineSearch α := fun o point value dir gradient t =>
+  let gtd := Vec.dot gradient dir
+  match backtrackGo o point dir value gtd 100 t with
+  | some (t', fnew, gnew) => ⟨Vec.axpy point t' dir, fnew, gnew⟩
+  | none => ⟨point, value, gradient⟩
+
+/-! ## AbstractLineSearchOptimizer with its three models -/
+
+inductive LSModel (α : Type) where
+  | bfgs (H : Mat α)
+  | cg (count : Nat)
+  | lbfgs (numHist : Nat) (bdiag : α) (hist : List (Vec α × Vec α))   -- (step, gradient difference), oldest first
+
+structure LSOpt (α : Type) where
+  dim : Nat
+  initialStep : α
+  best : Best α
+  derivative : Vec α
+  dir : Vec α
+  lastDerivative : Vec α
+  lastPoint : Vec α
+  lastValue : α
+  model : LSModel α
+
+namespace LSOpt
+
+/-- `while(!isFeasible(point + isl*dir)) isl /= 2` (terminates in the C++ at the latest when
+`isl` underflows to 0, i.e. after < 1100 halvings, because the starting point is feasible) -/
+def shrinkInitialStep (o : Objective α) (point dir : Vec α) : Nat → α → α
+  | 0, t => t
+  | k+1, t => if o.feasible (Vec.axpy point t dir) then t else shrinkInitialStep o point dir k (t / Scalar.two)
+
+def initModel (n : Nat) : LSModel α → LSModel α
+  | .bfgs _ => .bfgs (Mat.identity n)
+  | .cg _ => .cg 0
+  | .lbfgs h _ _ => .lbfgs h Scalar.one []
+
+/-- `AbstractLineSearchOptimizer::init` (`kind` only selects the model; its contents are reset) -/
+def init (o : Objective α) (kind : LSModel α) (x0 : Vec α) : LSOpt α :=
+  let g := o.grad x0
+  let dir := Vec.neg g
+  let isl := Scalar.min Scalar.one (Scalar.one / Vec.norm1 g)
+  { dim := x0.length, initialStep := shrinkInitialStep o x0 dir 1100 isl,
+    best := ⟨x0, o.f x0⟩, derivative := g, dir := dir,
+    lastDerivative := Vec.zeros x0.length, lastPoint := Vec.zeros x0.length, lastValue := o.f x0,
+    model := initModel x0.length kind }
+
+def outer (a b : Vec α) (f : α → α → α → α) (H : Mat α) : Mat α :=
+  List.zipWith (fun (row : Vec α) (ai : α) => List.zipWith (fun hij bj => f hij ai bj) row b) H a
+
+/-- `BFGS::computeSearchDirection` -/
+def bfgsUpdate (H : Mat α) (gamma delta : Vec α) : Mat α :=
+  let d := Vec.dot gamma delta
+  let Hg := Mat.mulVec H gamma
+  if d < Scalar.ofRat (1/100000000000000000000) then Mat.identity gamma.length
+  else
+    let scale := (Vec.dot gamma Hg / d + Scalar.one) / d
+    -- H_ij += scale*(δ_i δ_j) - (Hg_i δ_j + δ_i Hg_j)/d
+    List.zipWith (fun (row : Vec α) (ih : α × α) =>
+      List.zipWith (fun hij (jh : α × α) =>
+        hij + (scale * (ih.1 * jh.1) - (ih.2 * jh.1 + ih.1 * jh.2) / d)) row (List.zip delta Hg))
+      H (List.zip delta Hg)
+
+/-- L-BFGS two-loop recursion `multBInv` -/
+def multBInv (bdiag : α) (hist : List (Vec α × Vec α)) (x : Vec α) : Vec α :=
+  -- backward pass, newest first; collects (rho, alpha, s, y) in oldest-first order
+  let back := hist.reverse.foldl (fun (acc : Vec α × List (α × α × Vec α × Vec α)) (sy : Vec α × Vec α) =>
+    let rho := Scalar.one / Vec.dot sy.2 sy.1
+    let alpha := rho * Vec.dot sy.1 acc.1
+    (Vec.axpy acc.1 (-alpha) sy.2, (rho, alpha, sy.1, sy.2) :: acc.2)) (x, [])
+  let x1 := back.1.map (· / bdiag)
+  back.2.foldl (fun (x : Vec α) (r : α × α × Vec α × Vec α) =>
+    let beta := r.1 * Vec.dot r.2.2.2 x
+    List.zipWith (fun xi si => xi + si * (r.2.1 - beta)) x r.2.2.1) x1
+
+/-- `LBFGS::updateHist` -/
+def lbfgsUpdateHist (numHist : Nat) (bdiag : α) (hist : List (Vec α × Vec α)) (y s : Vec α) :
+    α × List (Vec α × Vec α) :=
+  let ys := Vec.dot y s
+  if Scalar.ofRat (1/10000000000) < ys then
+    let hist := if hist.length ≥ numHist then hist.drop 1 else hist
+    (Vec.dot y y / ys, hist ++ [(s, y)])
+  else (bdiag, hist)
+
+/-- `computeSearchDirection` of the three subclasses (L-BFGS: unconstrained branch).
+Input: the state after the line search. -/
+def computeSearchDirection (s : LSOpt α) : LSOpt α :=
+  match s.model with
+  | .bfgs H =>
+    let gamma := Vec.sub s.derivative s.lastDerivative
+    let delta := Vec.sub s.best.point s.lastPoint
+    let H' := bfgsUpdate H gamma delta
+    { s with model := .bfgs H', dir := Vec.neg (Mat.mulVec H' s.derivative) }
+  | .cg count =>
+    let count := count + 1
+    if count = s.dim then { s with model := .cg 0, dir := Vec.neg s.derivative }
+    else
+      let gg := Vec.normSqr s.derivative
+      let divisor := Vec.dot s.dir (Vec.sub s.derivative s.lastDerivative)
+      if Scalar.beq gg Scalar.zero || decide (Scalar.abs divisor ≤ Scalar.ofRat (1/10000000000) * gg) then
+        -- the C++ "restart" keeps the old direction: `noalias(m_searchDirection) -= m_derivative`
+        { s with model := .cg 0, dir := Vec.sub s.dir s.derivative }
+      else
+        let beta := gg / divisor
+        { s with model := .cg count, dir := Vec.sub (Vec.smul beta s.dir) s.derivative }
+  | .lbfgs h bdiag hist =>
+    let y := Vec.sub s.derivative s.lastDerivative
+    let st := Vec.sub s.best.point s.lastPoint
+    let (bdiag', hist') := lbfgsUpdateHist h bdiag hist y st
+    { s with model := .lbfgs h bdiag' hist', dir := multBInv bdiag' hist' (Vec.neg s.derivative) }
+
+/-- bookkeeping of `AbstractLineSearchOptimizer::step` up to (not including) `computeSearchDirection` -/
+def afterLineSearch (ls : LineSearch α) (o : Objective α) (s : LSOpt α) : LSOpt α :=
+  let r := ls o s.best.point s.best.value s.dir s.derivative s.initialStep
+  { s with lastDerivative := s.derivative, lastPoint := s.best.point, lastValue := s.best.value,
+           best := ⟨r.point, r.value⟩, derivative := r.gradient, initialStep := Scalar.one }
+
+/-- `AbstractLineSearchOptimizer::step` -/
+def step (ls : LineSearch α) (o : Objective α) (s : LSOpt α) : LSOpt α :=
+  computeSearchDirection (afterLineSearch ls o s)
+
+/-- `write`/`read` of AbstractLineSearchOptimizer + subclass archive every field of the model state
+(the line-search type is configuration of `ls`; the objective pointer is re-attached by `step`
+on the repaired tree, finding F8f) -/
+def write (s : LSOpt α) : LSOpt α := s
+def read (_fresh : LSOpt α) (a : LSOpt α) : LSOpt α := a
+end LSOpt
+
+end SharkVerif.Opt
